@@ -306,7 +306,19 @@ class Exec:
         elif k == "rm_mets":
             m.remove_metabolites([m.metabolites.get_by_id(i) for i in op["ms"] if i in m.metabolites], destructive=op["destructive"])
         elif k == "add_boundary":
-            m.add_boundary(m.metabolites.get_by_id(op["m"]), type=op["type"])
+            met = m.metabolites.get_by_id(op["m"])
+            if op.get("cfg"):
+                # under other configured default bounds than the stock ones (the bounds of the new reaction are documented to come from them)
+                from cobra import Configuration
+                conf = Configuration()
+                old = conf.bounds
+                conf.bounds = (fl(op["cfg"][0]), fl(op["cfg"][1]))
+                try:
+                    m.add_boundary(met, type=op["type"])
+                finally:
+                    conf.bounds = old
+            else:
+                m.add_boundary(met, type=op["type"])
         elif k == "imul":
             r = self.rxn(op["r"])
             r *= fl(op["k"])
@@ -608,7 +620,8 @@ def gen_op(rng, ex: Exec, kinds=None, p_bad=0.12):
     if k == "rm_mets":
         return {"op": k, "ms": rng.sample(mids, min(len(mids), 1 if rng.random() < 0.6 else 2)) if mids else [], "destructive": rng.random() < 0.35}
     if k == "add_boundary":
-        return {"op": k, "m": rng.choice(mids) if mids else "A", "type": rng.choice(["exchange", "demand", "sink"])}
+        return {"op": k, "m": rng.choice(mids) if mids else "A", "type": rng.choice(["exchange", "demand", "sink"]),
+                "cfg": rng.choice([None, None, ["-10", "10"], ["-5/2", "40"], ["0", "25"]])}
     if k == "imul":
         return {"op": k, "r": some_r(), "k": rng.choice(["2", "-1", "1/2", "-2", "4"])}
     if k == "remove_genes":
